@@ -52,7 +52,8 @@ claim("C05", "other",
       "for all ordered named offset-free pairs, a fixed compound family, fixed triples per dimension and "
       "a synthetic exactly-consistent system (1e-12); route independence additionally over ALL triples of "
       "shipped named units of a dimension (one query per ordered pair over the extracted factors, asking for a "
-      "magnitude and an intermediate that differ beyond tolerance).",
+      "magnitude and an intermediate that differ beyond tolerance), and a family in which a pair is declared, "
+      "used and declared again with another ratio.",
       "Planner concrete; exact reals over the code's binary constants; u->u exact for unprefixed units "
       "and 1e-12 relative for prefixed ones (float reciprocal constants); compound items touching units whose "
       "size is route dependent because of a C09 inconsistency are skipped and counted (named pairs and triples are not).",
@@ -98,7 +99,9 @@ claim("C06", "other",
       "pairs; z3 decides for ALL x,y that SI(a op b) equals the operation on SI(a), SI(b) within 1e-5 per "
       "degree, SI being magnitude times the unit size from the independent declaration oracle applied to "
       "the very unit object the library returned; ==/< agree with SI values away from ties; + - == < also on "
-      "Decimal and int magnitudes for the spellings that differ by a prefix (SI, IEC, mixed) or a unit.",
+      "Decimal and int magnitudes for the spellings that differ by a prefix (SI, IEC, mixed) or a unit; over "
+      "all named units of a dimension the verdict of < is tied to SI values through C04's sizes query (no "
+      "consistent sizes => three quantities with a < b < c < a, replayed).",
       "Exact reals over the code's constants; groups listed in props/c06.py; n in [-3,3]; Decimal / int "
       "counterexamples are candidates confirmed by the replay.",
       "shadow-symbolic execution of real operators + z3 NRA vs size oracle", "DESIGN.md 4/C06", "symnum")
@@ -182,7 +185,9 @@ claim("C19", "other",
       "shipped modules (AST) must resolve, under several import orders (finite audit). (4) Unit.equals / "
       "conversions.equate / translate and Dimension.scale run with symbolic magnitudes (and, for scale, the "
       "zero point's shape and the special values of its numeric type as solver-chosen selectors): a call that "
-      "raises must leave registries and conversion tables as they were.",
+      "raises must leave registries and conversion tables as they were. (5) Unit.named / resolve_symbol run "
+      "with the membership of the text in the name and the symbol registry chosen by solver variables: the "
+      "answer must come from the registry the lookup is about.",
       "Strings are concrete (with/without a space); registry invariant 'no symbol with a space is registered' "
       "assumed for pre-states; re-declaring a second name through a constructor is outside; part (3) is an "
       "audit, not a solver claim.",
@@ -202,7 +207,9 @@ claim("C20", "model_checking",
       "the memoised operator helpers leave every shared container as found; and (engine/initbmc.py) no "
       "line-level schedule of a creating and a finding thread returns an object with an attribute unassigned "
       "or reads one before it is assigned -- the step system (attribute reads/writes, flag reads scripted, "
-      "publish/obtain) is recorded from executions of the real constructor through descriptors.",
+      "publish/obtain) is recorded from executions of the real constructor through descriptors. Iteration over "
+      "the live table (items()/values() consumed by Python code) is modelled with a size-change counter: a "
+      "schedule in which another thread inserts between two advances is an error (RuntimeError in CPython).",
       "Line granularity (a subset of CPython's preemption points); setdefault of a builtin dict and `with "
       "lock` taken as atomic / mutually exclusive, setdefault of any other table type split into look-up and "
       "store; one key per constructor call; table operations without a model (del, pop, iteration) are a "
@@ -220,7 +227,10 @@ claim("C08", "model_checking",
       "shortest declared path' is validated against the real in_unit on every declaration graph over 3 units; "
       "a history found is replayed in two fresh subprocesses. Memo-key soundness (engine/memokeys.py): every "
       "memoised function found in the source is either keyed by interned objects only, or is called through its "
-      "real lru_cache wrapper with one symbolic value in two numeric types and must answer as its unmemoised body.",
+      "real lru_cache wrapper with one symbolic value in two numeric types and must answer as its unmemoised body. "
+      "Which caches a declaring call leaves filled is established by experiment for a new pair and for a pair "
+      "declared before (a conditional clear becomes a re-declaration history, replayed); plain conversions must "
+      "answer the same before and after 56 conversions of compound units built from the same pairs (finite audit).",
       "N <= 3 units and L <= 5 operations (quick), N <= 4, L <= 7 (thorough); queries on named units of one "
       "dimension (the planner's compound-unit logic is abstracted to path search); lru_cache contract.",
       "AST-extracted cache machine + z3 bounded model checking over symbolic histories", "DESIGN.md 4/C08",
